@@ -13,7 +13,7 @@ def run(tier, seed):
     return cw.run_shared(PROP, tier, seed, n, RULE, floors={"generated": 100, "c04_load_checks": 100},
                          extra_case_kw={"allow_sync_subscription": True}, case_hook=cw.with_custom_operations,
                          dirty_sets=[[], [], ["frag.many"], [], [], ["frag.many"], [], [], ["strlit.single_quote"], ["strlit.block"], ["shape.iface_hierarchy"],
-                                     ["names.keyword"], ["names.pydantic_attr"], ["names.leading_underscore"], ["frag.inline.on_interface"], ["dir.custom", "frag.uses_variables"], ["schema.extend"]])
+                                     ["names.keyword"], ["names.pydantic_attr"], ["names.leading_underscore"], ["frag.inline.on_interface"], ["dir.custom", "frag.uses_variables"], ["schema.extend"], ["frag.inline.on_same_abstract"]])
 
 
 def replay(data):
